@@ -455,6 +455,11 @@ func c09Strata() []*gast.Grammar {
 			r("T", gast.Rec(gast.A(gast.Lab("v", gast.Ref("N")), 2, mon.Spec{R: 3}), gast.Star(gast.Dot()), "L1")), r("N", gast.A(gast.Plus(gast.Cl(&gast.ClassSpec{Ranges: [][2]rune{{'0', '9'}}})), 3, mon.Spec{R: 2}))),
 		mk(r("S", gast.A(gast.S(gast.Lab("v", gast.Ref("N")), gast.Star(gast.S(gast.L(","), gast.Ref("T"))), gast.Lab("w", gast.Opt(gast.Ref("T")))), 1, mon.Spec{})),
 			r("T", gast.Rec(gast.S(gast.Lab("v", gast.Cl(gast.Chars("ab"))), gast.Lab("w", gast.C(gast.L("!"), gast.Thr("L1")))), gast.A(gast.Lab("v", gast.L("?")), 2, mon.Spec{}), "L1")), r("N", gast.A(gast.Plus(gast.Cl(&gast.ClassSpec{Ranges: [][2]rune{{'0', '9'}}})), 3, mon.Spec{R: 2}))),
+		// a class with one listed character AND Unicode classes next to literals (directly and through
+		// inlined leaf rules): it is not a one-character matcher
+		mk(r("S", gast.Star(gast.C(act(gast.S(gast.L("$"), gast.Cl(&gast.ClassSpec{Chars: []rune("_"), UClasses: []string{"L"}}), gast.Star(gast.Cl(&gast.ClassSpec{Chars: []rune("_"), UClasses: []string{"L", "Nd"}}))), 1),
+			act(gast.S(gast.Ref("Sig"), gast.Ref("St"), gast.L(";")), 2), gast.S(gast.Cl(&gast.ClassSpec{Chars: []rune("a"), UClasses: []string{"Nd"}, IgnoreCase: true}), gast.Li("b")), gast.Dot()))),
+			r("Sig", gast.L("#")), r("St", gast.Cl(&gast.ClassSpec{Chars: []rune("-"), UClasses: []string{"Lu"}}))),
 		// a greedy repetition directly followed by an element with the same operand (e* e, e* e+, e? e+,
 		// e+ e): order matters in a PEG - the repetition leaves nothing for its neighbour
 		mk(r("S", gast.C(act(gast.S(gast.Star(gast.Ref("D")), gast.Ref("D"), gast.L("L")), 1), act(gast.S(gast.Opt(gast.L("_")), gast.Plus(gast.L("_")), gast.Ref("D")), 2),
